@@ -415,8 +415,9 @@ pub fn check_c04(b: &[u8], l: &mut Local, coll: &Collector) {
             }
             _ => {}
         }
-        if let Zone::EitherUnchecked(_) = &zone {
-            // a supported `other` extension: only charset + fixed point are demanded
+        if matches!(&zone, Zone::EitherUnchecked(_)) || !loc.extensions.other.is_empty() {
+            // a supported `other` extension (also on an input that is outside C03 for another
+            // reason, e.g. a repeated keyword key): only charset + fixed point are demanded
             if s.bytes().any(|c| !(rm::is_alnum(c) || c == b'-')) {
                 viol(coll, l, "c04.wellformed", "output has a byte outside [A-Za-z0-9-]".into(), b, "[A-Za-z0-9-]*".into(), s.clone());
             }
@@ -573,6 +574,38 @@ pub fn check_c01_input(b: &[u8], l: &mut Local, coll: &Collector) {
         total!("Region::from_str", Region::from_str(s));
         total!("Variant::from_str", Variant::from_str(s));
     }
+    // the comparisons with text (`== &str`, `== str`) also accept arbitrary text: every accepted
+    // identifier / subtag is compared with the probe texts built around its own canonical text
+    // (prefixes, extensions, multi-byte characters at every byte offset)
+    if let Out::Ok(li) = guard(|| LanguageIdentifier::from_bytes(b)) {
+        if let Ok(c) = guard_total(|| li.to_string()) {
+            for p in eq_probes(&c) {
+                total!("LanguageIdentifier == &str", Ok::<bool, ()>(li == p.as_str()));
+            }
+            if li.script.is_none() && li.region.is_none() && li.variants().len() == 0 {
+                let v = li.language;
+                for p in eq_probes(v.as_str()) {
+                    total!("Language == &str", Ok::<bool, ()>(v == p.as_str()));
+                }
+            }
+        }
+    }
+    if let Out::Ok(v) = guard(|| Script::from_bytes(b)) {
+        for p in eq_probes(v.as_str()) {
+            total!("Script == &str", Ok::<bool, ()>(v == p.as_str()));
+        }
+    }
+    if let Out::Ok(v) = guard(|| Region::from_bytes(b)) {
+        for p in eq_probes(v.as_str()) {
+            total!("Region == &str", Ok::<bool, ()>(v == p.as_str()));
+        }
+    }
+    if let Out::Ok(v) = guard(|| Variant::from_bytes(b)) {
+        for p in eq_probes(v.as_str()) {
+            total!("Variant == &str", Ok::<bool, ()>(v == p.as_str()));
+            total!("Variant == str", Ok::<bool, ()>(v == *p.as_str()));
+        }
+    }
     // the extension part alone (what Locale::from_parts / into_parts hand around)
     if let Some(p) = b.iter().position(|c| *c == b'-' || *c == b'_') {
         total!("ExtensionsMap::from_bytes(tail)", ExtensionsMap::from_bytes(&b[p..]));
@@ -710,7 +743,11 @@ pub fn sweep(ctx: &Ctx, plan: &SweepPlan, rep: &mut Report, checker: &Checker) -
     // order hazards: subtag lists on which the lexicographic order differs from the integer,
     // length-first and reversed orders
     spaces.push(Box::new(ListSpace { label: "E4.order".into(), items: order_inputs(),
-        what: "every ordered pair and triple of 6 variants on which lexicographic, little-endian-integer and length-first order all differ (plus 4 registered pairs), in 7 syntactic contexts; every triple of 5 such words as attributes, keyword values, tfield values and private tags".into() }));
+        what: "every ordered pair and triple of 8 variants on which lexicographic, little-endian-integer and length-first order all differ or of which one is a prefix of another (plus 6 registered pairs), in 7 syntactic contexts; every triple of 7 such words as attributes, keyword values, tfield values and private tags".into() }));
+    if !plan.langid_only {
+        spaces.push(Box::new(ListSpace { label: "E4.singletons".into(), items: singleton_inputs(),
+            what: "every alphanumeric byte (62) and 8 others at singleton position in 22 contexts (in front of would-be -u-/-t-/-x-/other bodies, behind complete extensions, repeated), and every ordered pair of them as two extensions of one identifier".into() }));
+    }
     let mut tree_inputs = 0u64;
     let mut tree_nontrivial = 0u64;
     for sp in &spaces {
